@@ -1,60 +1,100 @@
 #!/bin/sh
 # C19, memory-safety sentence (validation, not proof): run the `buffer` harness domain — the same
-# runner, generator and property oracle as the native harness — under Miri and compare every output
-# line with the Lean model's.
+# runner, generator and property oracle as the native harness — and samples of the request files of
+# the byte-level domains that write through the buffer layer (`packer`, `huffman`, `packet6`) under
+# Miri, comparing every output line with the Lean model's.
 #
-#   tools/c19_miri.sh [seed]          (VERIF_REPO selects the repository, default /repo)
+#   tools/c19_miri.sh [seed]     (VERIF_REPO selects the repository, default /repo; seed default
+#                                 $VERIF_SEED or 1)
 #
-# Needs: `./check C19 quick` has been run once (native harness + twdrv built), `cargo +nightly miri`.
-# Writes evidence/C19-miri.json and prints one MIRI-VERDICT line; exit 0 iff the Tree Borrows run
-# reports no undefined behaviour, no disagreement with the model and no oracle failure.
-# Hook: ./check is a shared file; to make this part of `./check C19 thorough`, call this script after
-# the correspondence step when prop == "C19" and tier == "thorough" and add its JSON under
-# coverage.notes of evidence/C19.json.
+# Needs the native harness and the driver (built by any `./check`), and `cargo +nightly miri`.
+# Prints one line `MIRI-VERDICT …`, writes evidence/C19-miri.json, and exits non-zero iff Miri
+# (Tree Borrows) reports undefined behaviour, or an output line differs from the model's, or a
+# property oracle fails, or a run does not finish.  Wall time about 10–15 min (the four runs are
+# parallel; the `buffer` one dominates).
 set -u
 cd "$(dirname "$0")/.."
-VERIF=$(pwd)
 REPO=${VERIF_REPO:-/repo}
-SEED=${1:-1}
+SEED=${1:-${VERIF_SEED:-1}}
+export VERIF_REPO="$REPO"
 export CARGO_NET_OFFLINE=true
 mkdir -p run
 H=harness/target/debug/tw-harness
 D=lean/.lake/build/bin/twdrv
-if [ ! -x "$H" ] || [ ! -x "$D" ]; then echo "build first: ./check C19 quick" >&2; exit 2; fi
-$H gen buffer miri "$SEED" > run/miri.req || exit 2
-$D buffer < run/miri.req > run/miri.model || exit 2
+if [ ! -x "$H" ] || [ ! -x "$D" ]; then echo "MIRI-VERDICT not run: build first (./check C19 quick)"; exit 2; fi
+DOMS="buffer packer huffman packet6"
+$H gen buffer miri "$SEED" > run/miri.buffer.req || exit 2
+for d in packer huffman packet6; do
+  $H gen $d quick "$SEED" | python3 tools/c19_miri_select.py $d 20 > run/miri.$d.req || exit 2
+done
+for d in $DOMS; do
+  $D $d < run/miri.$d.req > run/miri.$d.model || exit 2
+done
 sed "s#@REPO@#$REPO#" harness-miri/Cargo.toml.in > harness-miri/Cargo.toml
+sed "s#@REPO@#$REPO#" harness-miri/stub-huffman-reference/Cargo.toml.in > harness-miri/stub-huffman-reference/Cargo.toml
 cp "$REPO/Cargo.lock" harness-miri/Cargo.lock
 cd harness-miri
 T0=$(date +%s)
-MIRIFLAGS="-Zmiri-disable-isolation -Zmiri-tree-borrows" cargo +nightly miri run --offline --bin tw-harness-miri -- ../run/miri.req ../run/miri.model > ../run/miri.tb.log 2>&1
-TB_RC=$?
-T1=$(date +%s)
+TB="-Zmiri-disable-isolation -Zmiri-tree-borrows"
+# build once (and: the minimal client under Tree Borrows)
+MIRIFLAGS="$TB" cargo +nightly miri run --offline --bin sb_repro > ../run/miri.sbtb.log 2>&1
+SBTB_RC=$?
+MIRIFLAGS="$TB" cargo +nightly miri run --offline --bin tw-harness-miri -- packer /dev/null /dev/null > /dev/null 2>&1
+for d in $DOMS; do
+  ( MIRIFLAGS="$TB" cargo +nightly miri run --offline --bin tw-harness-miri -- $d ../run/miri.$d.req ../run/miri.$d.model > ../run/miri.$d.log 2>&1
+    echo "EXIT $?" >> ../run/miri.$d.log ) &
+done
 # the aliasing verdict of the default model (Stacked Borrows) on a minimal safe client
 MIRIFLAGS="-Zmiri-disable-isolation" cargo +nightly miri run --offline --bin sb_repro > ../run/miri.sb.log 2>&1
 SB_RC=$?
-MIRIFLAGS="-Zmiri-disable-isolation -Zmiri-tree-borrows" cargo +nightly miri run --offline --bin sb_repro > ../run/miri.sbtb.log 2>&1
-SBTB_RC=$?
+wait
+T1=$(date +%s)
 cd ..
-SUMMARY=$(grep '^MIRI-SUMMARY' run/miri.tb.log | tail -1)
-UB=$(grep -c 'Undefined Behavior' run/miri.tb.log)
-SBUB=$(grep -m1 'Undefined Behavior' run/miri.sb.log | sed 's/"/'"'"'/g')
-python3 - "$TB_RC" "$UB" "$SUMMARY" "$SB_RC" "$SBUB" "$SBTB_RC" "$((T1 - T0))" "$SEED" "$REPO" <<'PY'
-import json, sys
-tb_rc, ub, summary, sb_rc, sbub, sbtb_rc, secs, seed, repo = sys.argv[1:]
-kv = dict(p.split("=") for p in summary.split()[1:]) if summary else {}
+python3 - "$SEED" "$REPO" "$((T1 - T0))" "$SB_RC" "$SBTB_RC" <<'PY'
+import json, re, sys
+seed, repo, secs, sb_rc, sbtb_rc = sys.argv[1:]
+doms = ["buffer", "packer", "huffman", "packet6"]
+runs, bad = {}, []
+for d in doms:
+    try:
+        log = open("run/miri.%s.log" % d, errors="replace").read()
+    except FileNotFoundError:
+        log = ""
+    m = re.findall(r"^MIRI-SUMMARY (.*)$", log, re.M)
+    kv = dict(p.split("=") for p in m[-1].split()) if m else {}
+    ex = re.findall(r"^EXIT (\d+)$", log, re.M)
+    r = {"exit": int(ex[-1]) if ex else -1, "undefined_behavior_reports": log.count("Undefined Behavior"),
+         "unsupported_operation_reports": log.count("unsupported operation"), "finished": bool(m)}
+    for k, v in kv.items():
+        r[k] = int(v) if v.isdigit() else v
+    r["first_diffs"] = re.findall(r"^(?:DIFF|FAIL) .*$", log, re.M)[:3]
+    runs[d] = r
+    if r["undefined_behavior_reports"] or not r["finished"] or r["exit"] != 0:
+        bad.append(d)
+try:
+    sb = open("run/miri.sb.log", errors="replace").read()
+except FileNotFoundError:
+    sb = ""
+sbm = re.search(r"Undefined Behavior: [^\n]*", sb)
 ev = {
     "property_id": "C19", "part": "memory-safety sentence (validation only)", "seed": int(seed), "repo": repo,
-    "tool": "cargo +nightly miri run (harness-miri: harness/src/d_buffer.rs + libtw2-buffer + arrayvec)",
-    "tree_borrows_run": {"flags": "-Zmiri-disable-isolation -Zmiri-tree-borrows", "exit": int(tb_rc),
-                         "undefined_behavior_reports": int(ub), "wall_s": int(secs),
-                         **{k: int(v) for k, v in kv.items()}},
-    "stacked_borrows_minimal_client": {"bin": "harness-miri/src/bin/sb_repro.rs", "exit": int(sb_rc), "first_report": sbub,
+    "tool": "cargo +nightly miri run (harness-miri: harness/src/d_{buffer,packer,huffman,packet6}.rs + the repository crates; the C++ huffman reference is replaced by a stand-in)",
+    "flags": "-Zmiri-disable-isolation -Zmiri-tree-borrows", "wall_s": int(secs), "tree_borrows_runs": runs,
+    "stacked_borrows_minimal_client": {"bin": "harness-miri/src/bin/sb_repro.rs", "exit": int(sb_rc),
+                                       "first_report": sbm.group(0) if sbm else None,
                                        "same_client_under_tree_borrows_exit": int(sbtb_rc)},
+    "verdict": "clean" if not bad else "NOT clean: " + ",".join(bad),
 }
 with open("evidence/C19-miri.json", "w") as f:
     json.dump(ev, f, indent=1, sort_keys=True)
     f.write("\n")
+parts = []
+for d in doms:
+    r = runs[d]
+    parts.append("%s: ub=%d requests=%s disagreements=%s oracle_fails=%s%s" % (
+        d, r["undefined_behavior_reports"], r.get("requests", "?"), r.get("disagreements", "?"), r.get("oracle_fails", "?"),
+        "" if r["finished"] else " DID-NOT-FINISH"))
+print("MIRI-VERDICT tree-borrows %s (%ss) | %s | stacked-borrows minimal client: exit=%s (aliasing report, see notes/buffer.md; tree-borrows exit=%s)" % (
+    ev["verdict"], secs, " ; ".join(parts), sb_rc, sbtb_rc))
+sys.exit(1 if bad else 0)
 PY
-echo "MIRI-VERDICT tree-borrows: exit=$TB_RC ub_reports=$UB ${SUMMARY:-no-summary} | stacked-borrows minimal client: exit=$SB_RC ${SBUB:-no-report} (tree-borrows exit=$SBTB_RC)"
-[ "$TB_RC" = 0 ] && [ "$UB" = 0 ]
